@@ -5,6 +5,14 @@ package dastard
 // C06 — the reported writing state always matches what the channels really do.
 // Engine A: BFS to a fixpoint over canonical writing states; every (state, request) transition is
 // executed on the real WriteControl / PublishData with real files, plus an un-merged DFS cross-check.
+//
+// Record publication is part of the alphabet ("request sequences ... interleaved with record publication"):
+// what happens between two requests is a tagged record on both channels, on channel 0 only, on channel 1
+// only, or nothing at all (requests back to back). In the BFS a record on one channel is an operation of its
+// own (any number of records, on any channel, between any two requests, down to none); the DFS families either
+// publish on both channels after every request (the long ones) or choose one of the four patterns after
+// every request (the probe families). So a channel may meet PAUSE / UNPAUSE / STOP / a second START before
+// it has stored its first record of the run, while the other channel already has.
 
 import (
 	"fmt"
@@ -24,7 +32,21 @@ type vWCReq struct {
 	req          string
 	l22, l3, off bool
 	user         string // not a write-control request but something the user does to the data directory: "rm-lowest", "rm-highest"
+	probe        int    // not a request but record publication: one tagged record on every channel of this bit mask
 }
+
+const vWCBoth = 3 // both channels
+
+// vWCProbeOps: record publication as operations of the alphabet, one channel at a time.
+func vWCProbeOps() []vWCReq {
+	return []vWCReq{
+		{name: "RECORD-ch0", probe: 1},
+		{name: "RECORD-ch1", probe: 2},
+	}
+}
+
+// vWCProbeNames: what is published between two requests in the probe families (index = channel mask).
+var vWCProbeNames = []string{"no-record", "record-ch0", "record-ch1", "record-both"}
 
 // vWCUserOps: what a user legitimately does to the output tree between requests: removing (or moving away)
 // the run directory of a finished run -- the lowest- or the highest-numbered one that no writer has open
@@ -50,15 +72,15 @@ func vWCRequests() []vWCReq {
 		if off {
 			n += "OFF "
 		}
-		out = append(out, vWCReq{strings.TrimSpace(n) + "}", "Start", l22, l3, off, ""})
+		out = append(out, vWCReq{strings.TrimSpace(n) + "}", "Start", l22, l3, off, "", 0})
 	}
-	out = append(out, vWCReq{"START{}", "START", false, false, false, ""})
-	out = append(out, vWCReq{"STOP", "Stop", false, false, false, ""})
-	out = append(out, vWCReq{"PAUSE", "pause", false, false, false, ""})
-	out = append(out, vWCReq{"UNPAUSE", "UNPAUSE", false, false, false, ""})
-	out = append(out, vWCReq{"UNPAUSE lbl", "UNPAUSE lbl", false, false, false, ""})
-	out = append(out, vWCReq{"UNPAUSElbl", "UNPAUSElbl", false, false, false, ""})
-	out = append(out, vWCReq{"FOO", "FOO", false, false, false, ""})
+	out = append(out, vWCReq{"START{}", "START", false, false, false, "", 0})
+	out = append(out, vWCReq{"STOP", "Stop", false, false, false, "", 0})
+	out = append(out, vWCReq{"PAUSE", "pause", false, false, false, "", 0})
+	out = append(out, vWCReq{"UNPAUSE", "UNPAUSE", false, false, false, "", 0})
+	out = append(out, vWCReq{"UNPAUSE lbl", "UNPAUSE lbl", false, false, false, "", 0})
+	out = append(out, vWCReq{"UNPAUSElbl", "UNPAUSElbl", false, false, false, "", 0})
+	out = append(out, vWCReq{"FOO", "FOO", false, false, false, "", 0})
 	return out
 }
 
@@ -66,6 +88,7 @@ type vWCRef struct{ active, paused, l22, l3, off bool }
 
 type vWCStep struct {
 	tag      int64
+	chans    int          // channels (bit mask) the record with this tag was published on
 	reported WritingState // state reported after the preceding request
 	pattern  string       // file pattern in force (from the reported state)
 	run      int          // index in vWCModel.runs of the run that pattern belongs to, -1 if none
@@ -89,6 +112,7 @@ type vWCModel struct {
 	runs     []vWCRunDir
 	starts   int
 	removals int
+	records  int // tagged records published so far (per channel)
 }
 
 // projMask: bit ch set = channel ch has projectors (and so is eligible for OFF files)
@@ -145,12 +169,20 @@ func vListRunDirs(base string) map[string]bool {
 	return out
 }
 
-// publishTagged pushes one uniquely tagged record per channel through the real AnalyzeData/PublishData.
-func (m *vWCModel) publishTagged(x *vexp.X) (string, string) {
+// publishTagged pushes one uniquely tagged record on every channel of the mask chans through the real
+// AnalyzeData/PublishData (chans == 0: nothing is published, the requests follow each other back to back).
+func (m *vWCModel) publishTagged(x *vexp.X, chans int) (string, string) {
+	if chans == 0 {
+		return "", ""
+	}
 	rep := m.ds.ComputeWritingState()
 	tag := m.nextTag
 	m.nextTag++
 	for ch, dsp := range m.ds.processors {
+		if chans&(1<<ch) == 0 {
+			continue
+		}
+		m.records++
 		data := make([]RawType, m.nsamp)
 		for j := range data {
 			data[j] = RawType(int(tag)*8 + j + ch*1000)
@@ -170,8 +202,8 @@ func (m *vWCModel) publishTagged(x *vexp.X) (string, string) {
 			run = i
 		}
 	}
-	m.steps = append(m.steps, vWCStep{tag: tag, reported: *rep, pattern: rep.FilenamePattern, run: run})
-	x.Logf("   record tag %d published under reported state active=%v paused=%v ljh22=%v ljh3=%v off=%v", tag, rep.Active, rep.Paused, rep.WriteLJH22, rep.WriteLJH3, rep.WriteOFF)
+	m.steps = append(m.steps, vWCStep{tag: tag, chans: chans, reported: *rep, pattern: rep.FilenamePattern, run: run})
+	x.Logf("   record tag %d published on %s under reported state active=%v paused=%v ljh22=%v ljh3=%v off=%v", tag, map[int]string{1: "channel 0 only", 2: "channel 1 only", 3: "both channels"}[chans], rep.Active, rep.Paused, rep.WriteLJH22, rep.WriteLJH3, rep.WriteOFF)
 	return "", ""
 }
 
@@ -183,7 +215,7 @@ func vWSKey(w *WritingState) string {
 }
 
 // userRemove removes the lowest- or highest-numbered run directory that no writer has open.
-func (m *vWCModel) userRemove(x *vexp.X, rq vWCReq) (string, string) {
+func (m *vWCModel) userRemove(x *vexp.X, rq vWCReq, probe int) (string, string) {
 	before := m.ds.ComputeWritingState()
 	inUse := map[string]bool{}
 	held := m.ref.active || before.Active || m.ds.writingState.experimentStateFile != nil
@@ -227,14 +259,19 @@ func (m *vWCModel) userRemove(x *vexp.X, rq vWCReq) (string, string) {
 	if vWSKey(before) != vWSKey(after) || before.FilenamePattern != after.FilenamePattern {
 		return fmt.Sprintf("%s changed the reported state from %s to %s", rq.name, vWSKey(before), vWSKey(after)), "reported-state-wrong"
 	}
-	return m.publishTagged(x)
+	return m.publishTagged(x, probe)
 }
 
-// request issues one write-control request and checks the reported state against the reference.
-func (m *vWCModel) request(x *vexp.X, rq vWCReq) (string, string) {
+// request issues one write-control request and checks the reported state against the reference; then one
+// tagged record is published on every channel of the mask probe. (An operation that is itself a record
+// publication does just that.)
+func (m *vWCModel) request(x *vexp.X, rq vWCReq, probe int) (string, string) {
 	x.Steps++
+	if rq.probe != 0 {
+		return m.publishTagged(x, rq.probe)
+	}
 	if rq.user != "" {
-		return m.userRemove(x, rq)
+		return m.userRemove(x, rq, probe)
 	}
 	before := m.ds.ComputeWritingState()
 	dirsBefore := vListRunDirs(m.base)
@@ -283,7 +320,7 @@ func (m *vWCModel) request(x *vexp.X, rq vWCReq) (string, string) {
 			}
 		}
 	}
-	return m.publishTagged(x)
+	return m.publishTagged(x, probe)
 }
 
 func (m *vWCModel) canon() string {
@@ -291,7 +328,10 @@ func (m *vWCModel) canon() string {
 	s := vWSKey(w)
 	s += fmt.Sprintf("|esf=%v", m.ds.writingState.experimentStateFile != nil)
 	for _, dsp := range m.ds.processors {
-		s += fmt.Sprintf("|p=%v,%v,%v,%v", dsp.WritingPaused, dsp.HasLJH22(), dsp.HasLJH3(), dsp.HasOFF())
+		// per channel: the pause flag, the writers, whether each has its file yet (header written), and whether
+		// the channel has stored a record since writing last started or stopped (a channel that has not is in a
+		// different state from one that has: its files do not exist yet)
+		s += fmt.Sprintf("|p=%v,%v,%v,%v,w%v", dsp.WritingPaused, dsp.HasLJH22(), dsp.HasLJH3(), dsp.HasOFF(), dsp.numberWritten > 0)
 		if dsp.HasLJH22() {
 			s += fmt.Sprintf("h%v", dsp.LJH22.HeaderWritten)
 		}
@@ -322,7 +362,7 @@ func (m *vWCModel) finish(x *vexp.X) (string, string) {
 		}
 		return nil
 	})
-	if v, c := m.publishTagged(x); v != "" {
+	if v, c := m.publishTagged(x, vWCBoth); v != "" {
 		return v, c
 	}
 	m.steps = m.steps[:len(m.steps)-1]
@@ -386,6 +426,9 @@ func (m *vWCModel) finish(x *vexp.X) (string, string) {
 	}
 	for _, st := range m.steps {
 		for ch, dsp := range m.ds.processors {
+			if st.chans&(1<<ch) == 0 {
+				continue // no record with this tag was published on this channel
+			}
 			for _, typ := range []string{"ljh", "ljh3", "off"} {
 				enabled := map[string]bool{"ljh": st.reported.WriteLJH22, "ljh3": st.reported.WriteLJH3, "off": st.reported.WriteOFF && dsp.HasProjectors()}[typ]
 				want := st.reported.Active && !st.reported.Paused && enabled
@@ -425,17 +468,25 @@ var vWCMaskNames = []string{"proj-on-ch0", "proj-on-ch1", "proj-on-both", "proj-
 var vWCMasks = []int{1, 2, 3, 0}
 
 // vWCRun: maxDirs > 0 = histories after which more than maxDirs run directories exist are checked but not
-// extended (their canonical state is ""), which makes the BFS state space finite.
-func vWCRun(x *vexp.X, reqs []vWCReq, hist []int, projMask, maxDirs int) (string, vexp.Result) {
+// extended (their canonical state is ""), which makes the BFS state space finite. probes[i] = channel mask of
+// the tagged record published after hist[i] (probes == nil: both channels after every operation that is not
+// itself a record publication).
+func vWCRun(x *vexp.X, reqs []vWCReq, hist []int, probes []int, projMask, maxDirs int) (string, vexp.Result) {
 	vWCSeq++
 	base := filepath.Join(os.Getenv("TMPDIR"), fmt.Sprintf("wc%d", vWCSeq))
 	os.MkdirAll(base, 0755)
 	m := vWCNew(base, projMask)
 	defer m.close()
 	var names []string
-	for _, oi := range hist {
-		names = append(names, reqs[oi].name)
-		if v, c := m.request(x, reqs[oi]); v != "" {
+	for i, oi := range hist {
+		probe := vWCBoth
+		if probes != nil {
+			probe = probes[i]
+			names = append(names, reqs[oi].name+"+"+vWCProbeNames[probe])
+		} else {
+			names = append(names, reqs[oi].name)
+		}
+		if v, c := m.request(x, reqs[oi], probe); v != "" {
 			return "", vexp.Result{Violation: fmt.Sprintf("history %v: %s", names, v), Class: c}
 		}
 	}
@@ -444,17 +495,29 @@ func vWCRun(x *vexp.X, reqs []vWCReq, hist []int, projMask, maxDirs int) (string
 	if maxDirs > 0 && len(vListRunDirs(base)) > maxDirs {
 		canon = ""
 	}
+	nontrivial := m.starts > 0 && m.records > 0
 	if v, c := m.finish(x); v != "" {
 		return "", vexp.Result{Violation: fmt.Sprintf("history %v: %s", names, v), Class: c}
 	}
-	return canon, vexp.Result{Nontrivial: m.starts > 0, Outcome: outcome}
+	return canon, vexp.Result{Nontrivial: nontrivial, Outcome: outcome}
+}
+
+func vWCSortedNames(qs []vWCReq) string {
+	names := []string{}
+	for _, q := range qs {
+		names = append(names, q.name)
+	}
+	sort.Strings(names)
+	return strings.Join(names, ", ")
 }
 
 func TestVerifC06(t *testing.T) {
 	r := vexp.NewRunner("C06")
 	defer r.Finish()
 	reqs := vWCRequests()
-	all := append(append([]vWCReq{}, reqs...), vWCUserOps()...)
+	// the BFS alphabet: requests, the user's removals, and record publication one channel at a time
+	all := append(append(append([]vWCReq{}, reqs...), vWCUserOps()...), vWCProbeOps()...)
+	noProbes := func(n int) []int { return make([]int, n) }
 	// the reduced alphabet of the directory-numbering family: one START, STOP and the user's removals
 	var dirOps []vWCReq
 	for _, q := range all {
@@ -462,26 +525,45 @@ func TestVerifC06(t *testing.T) {
 			dirOps = append(dirOps, q)
 		}
 	}
+	// the reduced alphabet of the deeper probe family: the legal requests, two STARTs with disjoint file types
+	var coreOps []vWCReq
+	for _, q := range reqs {
+		if q.name == "START{LJH22}" || q.name == "START{LJH3 OFF}" || q.name == "STOP" || q.name == "PAUSE" || q.name == "UNPAUSE" {
+			coreOps = append(coreOps, q)
+		}
+	}
 	depth, maxDirs, dirDepth := 4, 2, 6
+	// probe families, depth per projector assignment (index into vWCMasks; 0 = family not run for it)
+	probeDepth, coreDepth := []int{2, 2, 2, 2}, []int{3, 3, 0, 0}
 	if r.Thorough() {
 		depth, maxDirs, dirDepth = 5, 3, 7
+		probeDepth, coreDepth = []int{3, 2, 2, 2}, []int{4, 3, 0, 0}
 	}
-	sorted := func(qs []vWCReq) string {
-		names := []string{}
-		for _, q := range qs {
-			names = append(names, q.name)
+	depthList := func(ds []int) string {
+		var out []string
+		for mi, d := range ds {
+			if d > 0 {
+				out = append(out, fmt.Sprintf("%s: %d", vWCMaskNames[mi], d))
+			}
 		}
-		sort.Strings(names)
-		return strings.Join(names, ", ")
+		return strings.Join(out, ", ")
 	}
-	r.SetBound(fmt.Sprintf("BFS to closure over %d requests (%s) and %d user actions on the output tree (%s: the lowest-/highest-numbered run directory no writer has open is removed), "+
-		"histories not extended once more than %d run directories exist at the same time, one tagged record per channel after every request, "+
-		"for each projector assignment of two channels (%s); plus un-merged DFS of all sequences of the %d requests to depth %d (quick: depth-1 for the two uniform assignments); "+
-		"plus un-merged DFS of all sequences over {%s} to depth %d (proj-on-ch0)",
-		len(reqs), sorted(reqs), len(vWCUserOps()), sorted(vWCUserOps()), maxDirs, strings.Join(vWCMaskNames, ", "), len(reqs), depth, sorted(dirOps), dirDepth))
+	r.SetBound(fmt.Sprintf("BFS to closure over %d requests (%s), %d user actions on the output tree (%s: the lowest-/highest-numbered run directory no writer has open is removed) "+
+		"and %d record publications (%s: one tagged record on that channel; so between two requests any number of records on any of the channels, down to none), "+
+		"histories not extended once more than %d run directories exist at the same time, "+
+		"for each projector assignment of two channels (%s); plus un-merged DFS of all sequences of the %d requests to depth %d (quick: depth-1 for the two uniform assignments), "+
+		"one tagged record on both channels after every request; "+
+		"plus un-merged DFS of all sequences over {%s} to depth %d (proj-on-ch0), records as before; "+
+		"plus probe families (un-merged DFS): after every request, the last one included, one of {%s} is published: all sequences of the %d requests to depth (%s) "+
+		"and all sequences over {%s} to depth (%s)",
+		len(reqs), vWCSortedNames(reqs), len(vWCUserOps()), vWCSortedNames(vWCUserOps()), len(vWCProbeOps()), vWCSortedNames(vWCProbeOps()), maxDirs, strings.Join(vWCMaskNames, ", "),
+		len(reqs), depth, vWCSortedNames(dirOps), dirDepth,
+		strings.Join(vWCProbeNames, ", "), len(reqs), depthList(probeDepth), vWCSortedNames(coreOps), depthList(coreDepth)))
 	for mi, mask := range vWCMasks {
 		mask := mask
-		r.BFS("bfs/"+vWCMaskNames[mi], vexp.BFSSpec{NumOps: len(all), Run: func(x *vexp.X, hist []int) (string, vexp.Result) { return vWCRun(x, all, hist, mask, maxDirs) }})
+		r.BFS("bfs/"+vWCMaskNames[mi], vexp.BFSSpec{NumOps: len(all), Run: func(x *vexp.X, hist []int) (string, vexp.Result) {
+			return vWCRun(x, all, hist, noProbes(len(hist)), mask, maxDirs)
+		}})
 	}
 	for mi, mask := range vWCMasks {
 		mask := mask
@@ -496,7 +578,7 @@ func TestVerifC06(t *testing.T) {
 				for len(hist) < d {
 					hist = append(hist, x.Choose(len(reqs)))
 				}
-				_, res := vWCRun(x, reqs, hist, mask, 0)
+				_, res := vWCRun(x, reqs, hist, nil, mask, 0)
 				return res
 			})
 		}
@@ -510,9 +592,36 @@ func TestVerifC06(t *testing.T) {
 				for len(hist) < dirDepth {
 					hist = append(hist, x.Choose(len(dirOps)))
 				}
-				_, res := vWCRun(x, dirOps, hist, vWCMasks[0], 0)
+				_, res := vWCRun(x, dirOps, hist, nil, vWCMasks[0], 0)
 				return res
 			})
+		}
+	}
+	// the probe families: what is published between two requests (and after the last one) is a choice
+	probeFamily := func(family string, ops []vWCReq, mi, d int) {
+		mask := vWCMasks[mi]
+		for first := range ops {
+			first := first
+			r.DFS(fmt.Sprintf("%s/%s/first=%s", family, vWCMaskNames[mi], ops[first].name), -1, func(x *vexp.X) vexp.Result {
+				hist := []int{first}
+				probes := []int{x.Choose(len(vWCProbeNames))}
+				for len(hist) < d {
+					hist = append(hist, x.Choose(len(ops)))
+					probes = append(probes, x.Choose(len(vWCProbeNames)))
+				}
+				_, res := vWCRun(x, ops, hist, probes, mask, 0)
+				return res
+			})
+		}
+	}
+	for mi := range vWCMasks {
+		if probeDepth[mi] > 0 {
+			probeFamily("dfs-probe", reqs, mi, probeDepth[mi])
+		}
+	}
+	for mi := range vWCMasks {
+		if coreDepth[mi] > 0 {
+			probeFamily("dfs-probe-core", coreOps, mi, coreDepth[mi])
 		}
 	}
 }
